@@ -6,7 +6,7 @@ PROP = dict(
               "boundaries), tied to Client.ReadFixedHeader/ReadPacket by differential execution; crash-freedom and "
               "isolation of other connections exercised dynamically beside a reference client pair (not proved)",
     level_text="PARTIAL.  Proved for all byte streams: the framing layer accepts exactly standard headers, refuses "
-               "over-size packets before any body byte, never lets one packet's bytes leak into the next.  Decoder "
+               "over-size packets before any body byte, never lets one packet's bytes leak into the next; for streams of ANY number of packets (induction): good packets followed by any tail come out exactly, the tail decides the end alone (C28_stream_complete/_bad_tail), and every delivered frame list is a segmentation of a stream prefix into standard in-limit packets (C28_stream_sound).  Decoder "
                "totality is C27.  Not provable in a model: run-time panics elsewhere in the Go handlers and scheduler-"
                "level interference; the `bytes` engine drives hostile streams next to reference traffic and the "
                "extracted monitor isolation_ok decides each observation.",
@@ -15,8 +15,9 @@ PROP = dict(
                "harness process, which the driver reports as a violation).  Modelled not verified: bufio.Reader, "
                "io.ReadFull (a list of bytes).",
     engines=[dict(hx="framing"), dict(hx="bytes")],
-    theorems=["C28_header_is_standard", "C28_maxsize_refused_before_body", "C28_frame_sound", "C28_framing_partial"],
-    model_files="coq/IO/Framing.v, coq/IO/Isolation.v",
+    theorems=["C28_header_is_standard", "C28_maxsize_refused_before_body", "C28_frame_sound", "C28_framing_partial",
+              "C28_stream_complete", "C28_stream_exact", "C28_stream_bad_tail", "C28_stream_sound"],
+    model_files="coq/IO/Framing.v, coq/IO/FramingStream.v (proofs over whole streams), coq/IO/Isolation.v",
     rule="framing: all 256 first bytes; sizes -4..+4 around 14 limits covering 1-3 byte length fields; random "
          "streams of valid packets, garbage, non-minimal/over-long length fields, truncated, with random limits. "
          "bytes: 150 (thorough 5000) sessions: attacker sends 3-8 chunks (random, mutated catalogue vectors of "
